@@ -19,6 +19,7 @@ import (
 	"time"
 
 	"github.com/tochemey/goakt/v4/log"
+	"github.com/tochemey/goakt/v4/reentrancy"
 )
 
 type c03Msg struct {
@@ -39,7 +40,10 @@ type c03Ev struct {
 	Seq    int
 }
 
+type c03Ack struct{ Seq int }
+
 type c03Actor struct {
+	ackTo    *PID // driver scenarios: every processed message is answered (Response for a Request, Tell otherwise)
 	mu       sync.Mutex
 	log      []c03Ev
 	stashing bool
@@ -67,6 +71,13 @@ func (a *c03Actor) Receive(ctx *ReceiveContext) {
 		a.log = append(a.log, c03Ev{0, m.Sender, m.Seq})
 		a.mu.Unlock()
 		a.handled.Add(1)
+		if a.ackTo != nil {
+			if ctx.CorrelationID() != "" {
+				ctx.Response(&c03Ack{m.Seq})
+			} else {
+				ctx.Tell(a.ackTo, &c03Ack{m.Seq})
+			}
+		}
 	case *c03Ctl:
 		a.mu.Lock()
 		n := a.nstash
@@ -456,5 +467,346 @@ func TestVerifC03Actors(t *testing.T) {
 	defer sys.Stop(context.Background())
 	for i, cfg := range cfgs {
 		w.put(c03Stress(t, sys, i, cfg))
+	}
+}
+
+// ------------------------------------------------------------------------------------------------
+// sender programs mixing Tell, BatchTell and Request, issued by ONE sender actor from one handler
+// invocation towards one busy receiver; the receiver answers every processed message (Response
+// for a Request, Tell otherwise) towards the then busy sender.
+
+type c03Prog struct {
+	Ops  [][]int
+	To   *PID
+	sent chan struct{}
+}
+
+type c03Driver struct {
+	mu   sync.Mutex
+	acks []int
+	errs []string
+	want int
+	done chan struct{}
+	once sync.Once
+}
+
+func (d *c03Driver) PreStart(*Context) error { return nil }
+func (d *c03Driver) PostStop(*Context) error { return nil }
+func (d *c03Driver) record(seq int) {
+	d.mu.Lock()
+	d.acks = append(d.acks, seq)
+	n := len(d.acks)
+	d.mu.Unlock()
+	if n >= d.want {
+		d.once.Do(func() { close(d.done) })
+	}
+}
+func (d *c03Driver) Receive(ctx *ReceiveContext) {
+	switch m := ctx.Message().(type) {
+	case *c03Gate:
+		close(m.entered)
+		<-m.release
+	case *c03Ack:
+		d.record(m.Seq)
+	case *c03Prog:
+		for i := 0; i < len(m.Ops); i++ {
+			op := m.Ops[i]
+			switch op[0] {
+			case 0:
+				ctx.Tell(m.To, &c03Msg{0, op[1]})
+			case 7:
+				var batch []any
+				for j := 1; j <= op[1] && i+j < len(m.Ops) && m.Ops[i+j][0] == 0; j++ {
+					batch = append(batch, &c03Msg{0, m.Ops[i+j][1]})
+				}
+				i += len(batch)
+				ctx.BatchTell(m.To, batch...)
+			case 8:
+				id := op[1]
+				call := ctx.Request(m.To, &c03Msg{0, id}, WithRequestTimeout(90*time.Second))
+				if call == nil {
+					d.mu.Lock()
+					d.errs = append(d.errs, fmt.Sprintf("Request(%d) refused: %v", id, ctx.getError()))
+					d.mu.Unlock()
+					continue
+				}
+				call.Then(func(resp any, err error) {
+					if a, ok := resp.(*c03Ack); ok && err == nil {
+						d.record(a.Seq)
+						return
+					}
+					d.mu.Lock()
+					d.errs = append(d.errs, fmt.Sprintf("Request(%d) completed with %v / %v", id, resp, err))
+					d.mu.Unlock()
+					d.record(-id)
+				})
+			default:
+				ctx.Tell(m.To, &c03Ctl{Cmd: op[0]})
+			}
+		}
+		ctx.Tell(m.To, &c03Ctl{Cmd: 5})
+		close(m.sent)
+	}
+}
+
+type c03DrvOut struct {
+	I    int
+	Log  [][]int // receiver: [kind, id]
+	Acks []int   // sender: ids in the order their acknowledgements / responses were handled
+	Err  string
+}
+
+func TestVerifC03Driver(t *testing.T) {
+	cases := verifReadJSONL[c03GateCase](t, "c03_drv_in.jsonl")
+	w := newVerifWriter(t, "c03_drv_out.jsonl")
+	defer w.close()
+	sys := c03System(t)
+	defer sys.Stop(context.Background())
+	ctx := context.Background()
+	wait := func(ch chan struct{}, what string, out *c03DrvOut) bool {
+		select {
+		case <-ch:
+			return true
+		case <-time.After(30 * time.Second):
+			if out.Err == "" {
+				out.Err = "timeout: " + what
+			}
+			return false
+		}
+	}
+	for ci, c := range cases {
+		out := c03DrvOut{I: ci}
+		nsend := 0
+		for _, op := range c.Ops {
+			if op[0] == 0 || op[0] == 8 {
+				nsend++
+			}
+		}
+		drv := &c03Driver{want: nsend, done: make(chan struct{})}
+		dpid, err := sys.Spawn(ctx, fmt.Sprintf("drv-%d", ci), drv, WithReentrancy(reentrancy.New(reentrancy.WithMode(reentrancy.AllowAll))))
+		if err != nil {
+			out.Err = "spawn driver: " + err.Error()
+			w.put(out)
+			continue
+		}
+		a := &c03Actor{done: make(chan struct{}), ackTo: dpid}
+		pid, err := sys.Spawn(ctx, fmt.Sprintf("rcv-%d", ci), a, WithMailbox(c03Mailbox(c.K, c.C)), WithStashing())
+		if err != nil {
+			out.Err = "spawn receiver: " + err.Error()
+			w.put(out)
+			continue
+		}
+		g1 := &c03Gate{entered: make(chan struct{}), release: make(chan struct{})}
+		g2 := &c03Gate{entered: make(chan struct{}), release: make(chan struct{})}
+		prog := &c03Prog{Ops: c.Ops, To: pid, sent: make(chan struct{})}
+		_ = Tell(ctx, pid, g1)
+		ok := wait(g1.entered, "the receiver never processed the gate message", &out)
+		if ok {
+			_ = Tell(ctx, dpid, prog)
+			ok = wait(prog.sent, "the sender never finished its program", &out)
+		}
+		if ok {
+			_ = Tell(ctx, dpid, g2) // now the sender is busy too: replies queue up
+			ok = wait(g2.entered, "the sender never processed its gate message", &out)
+		}
+		close(g1.release)
+		if ok {
+			ok = wait(a.done, "the receiver did not process every queued message", &out)
+		}
+		close(g2.release)
+		if ok && nsend > 0 {
+			wait(drv.done, "the sender did not get every acknowledgement", &out)
+		}
+		for _, e := range a.snapshot() {
+			out.Log = append(out.Log, []int{e.Kind, e.Seq})
+		}
+		drv.mu.Lock()
+		out.Acks = append([]int{}, drv.acks...)
+		if len(drv.errs) > 0 && out.Err == "" {
+			out.Err = drv.errs[0]
+		}
+		drv.mu.Unlock()
+		_ = pid.Shutdown(ctx)
+		_ = dpid.Shutdown(ctx)
+		w.put(out)
+	}
+}
+
+// ------------------------------------------------------------------------------------------------
+// turn hand-off windows: a wrapper around a real FIFO mailbox adds two legal perturbations —
+// at the end of a turn (the owner's IsEmpty re-check, or a Dequeue that returned nil) the same sender
+// sends a burst, waiting after its first message until ANOTHER dispatcher worker has dequeued it;
+// and the Dequeue that hands out that first message is slow to return.
+
+type c03Perturb struct {
+	inner    Mailbox
+	point    int // 0: IsEmpty, 1: Dequeue returned nil
+	armed    atomic.Bool
+	onWindow func()
+	holdSeq  int
+	holdOnce sync.Once
+	gotHeld  chan struct{}
+	release  chan struct{}
+}
+
+func (m *c03Perturb) Enqueue(rc *ReceiveContext) error { return m.inner.Enqueue(rc) }
+func (m *c03Perturb) Dequeue() *ReceiveContext {
+	rc := m.inner.Dequeue()
+	if rc == nil {
+		if m.point == 1 && m.armed.CompareAndSwap(true, false) {
+			m.onWindow()
+		}
+		return nil
+	}
+	if x, ok := rc.Message().(*c03Msg); ok && m.holdSeq > 0 && x.Seq == m.holdSeq {
+		m.holdOnce.Do(func() {
+			close(m.gotHeld)
+			select {
+			case <-m.release:
+			case <-time.After(250 * time.Millisecond):
+			}
+		})
+	}
+	return rc
+}
+func (m *c03Perturb) IsEmpty() bool {
+	if m.point == 0 && m.armed.CompareAndSwap(true, false) {
+		m.onWindow()
+	}
+	return m.inner.IsEmpty()
+}
+func (m *c03Perturb) Len() int64 { return m.inner.Len() }
+func (m *c03Perturb) Dispose()   { m.inner.Dispose() }
+
+type c03HandoffCase struct {
+	K      string
+	C      int
+	Point  int
+	Racing int  // messages sent inside the window
+	Hold   bool // wait until another worker dequeued the first of them; that Dequeue is slow
+	Batch  bool // the rest of the burst goes out as one BatchTell
+}
+type c03HandoffOut struct {
+	I       int
+	Starts  []int
+	Ends    []int
+	Overlap bool
+	Fired   bool
+	Err     string
+}
+
+type c03Order struct {
+	mu      sync.Mutex
+	starts  []int
+	ends    []int
+	running atomic.Int32
+	overlap atomic.Bool
+	total   int
+	done    chan struct{}
+	once    sync.Once
+	box     *c03Perturb
+}
+
+func (a *c03Order) PreStart(*Context) error { return nil }
+func (a *c03Order) PostStop(*Context) error { return nil }
+func (a *c03Order) Receive(ctx *ReceiveContext) {
+	m, ok := ctx.Message().(*c03Msg)
+	if !ok {
+		return
+	}
+	if a.running.Add(1) > 1 {
+		a.overlap.Store(true)
+	}
+	a.mu.Lock()
+	a.starts = append(a.starts, m.Seq)
+	a.mu.Unlock()
+	runtime.Gosched()
+	a.mu.Lock()
+	a.ends = append(a.ends, m.Seq)
+	n := len(a.ends)
+	a.mu.Unlock()
+	a.running.Add(-1)
+	if m.Seq == a.total-1 {
+		select {
+		case <-a.box.release:
+		default:
+			close(a.box.release)
+		}
+	}
+	if n >= a.total {
+		a.once.Do(func() { close(a.done) })
+	}
+}
+
+func TestVerifC03Handoff(t *testing.T) {
+	cases := verifReadJSONL[c03HandoffCase](t, "c03_handoff_in.jsonl")
+	w := newVerifWriter(t, "c03_handoff_out.jsonl")
+	defer w.close()
+	if runtime.GOMAXPROCS(0) < 4 {
+		defer runtime.GOMAXPROCS(runtime.GOMAXPROCS(4))
+	}
+	sys := c03System(t)
+	defer sys.Stop(context.Background())
+	ctx := context.Background()
+	for ci, c := range cases {
+		out := c03HandoffOut{I: ci}
+		box := &c03Perturb{inner: c03Mailbox(c.K, c.C), point: c.Point, gotHeld: make(chan struct{}), release: make(chan struct{})}
+		if c.Hold {
+			box.holdSeq = 1
+		}
+		a := &c03Order{total: 1 + c.Racing, done: make(chan struct{}), box: box}
+		pid, err := sys.Spawn(ctx, fmt.Sprintf("handoff-%d", ci), a, WithMailbox(box), WithLongLived())
+		if err != nil {
+			out.Err = "spawn: " + err.Error()
+			w.put(out)
+			continue
+		}
+		// let the start-up traffic settle: the actor must be idle with an empty mailbox
+		for i := 0; i < 400; i++ {
+			time.Sleep(5 * time.Millisecond)
+			if i >= 10 && pid.schedState.Load() == dispatchIdle && box.inner.IsEmpty() {
+				break
+			}
+		}
+		var fired atomic.Bool
+		box.onWindow = func() {
+			fired.Store(true)
+			_ = Tell(ctx, pid, &c03Msg{0, 1})
+			if c.Hold {
+				select {
+				case <-box.gotHeld:
+				case <-time.After(500 * time.Millisecond):
+				}
+			}
+			if c.Batch {
+				var rest []any
+				for s := 2; s <= c.Racing; s++ {
+					rest = append(rest, &c03Msg{0, s})
+				}
+				if len(rest) > 0 {
+					_ = BatchTell(ctx, pid, rest...)
+				}
+			} else {
+				for s := 2; s <= c.Racing; s++ {
+					_ = Tell(ctx, pid, &c03Msg{0, s})
+				}
+			}
+		}
+		box.armed.Store(true)
+		_ = Tell(ctx, pid, &c03Msg{0, 0}) // starts a turn; the window opens when that turn runs dry
+		select {
+		case <-a.done:
+		case <-time.After(15 * time.Second):
+			out.Err = "timeout: not every message was processed"
+		}
+		time.Sleep(20 * time.Millisecond) // a straggling handler
+		a.mu.Lock()
+		out.Starts = append([]int{}, a.starts...)
+		out.Ends = append([]int{}, a.ends...)
+		a.mu.Unlock()
+		out.Overlap = a.overlap.Load()
+		out.Fired = fired.Load()
+		_ = pid.Shutdown(ctx)
+		w.put(out)
 	}
 }
